@@ -37,7 +37,7 @@ for ntr, ncores in ((1, 2), (2, 2), (3, 1)):
     fam('dispatch-twice-t%d-c%d' % (ntr, ncores), 'h_dispatch_twice', NTRIALS=ntr, opts={'nprocs': ncores, 'max_preempt': 1}, w=3)
 fam('isolation', 'h_isolation', w=6)
 fam('isolation', 'h_isolation', witness=True, w=6)
-fam('dispatch-t4-c3-p3', 'h_dispatch', tier='thorough', NTRIALS=4, opts={'nprocs': 3, 'max_preempt': 3}, w=40)
+fam('dispatch-t4-c3-p3', 'h_dispatch', tier='thorough', NTRIALS=4, opts={'nprocs': 3, 'max_preempt': 3, 'max_paths': 4000000}, w=40)
 fam('dispatch-t6-c2-p3', 'h_dispatch', tier='thorough', NTRIALS=6, opts={'nprocs': 2, 'max_preempt': 3}, w=40)
 c.run_e1(fams, assumptions=['sequentially consistent interleavings; a thread switch may occur after every atomic read-modify-write and after every plain access to a non-thread-local global; at most 2-3 preemptions per schedule (switches at thread end / join are free)',
                             'weak-memory behaviour of real hardware, OS scheduling, wall-clock effects and trial bodies that share user globals are outside',
